@@ -145,6 +145,11 @@ class RunLab(object):
                 exc = ERROR_CLASSES[zlib.crc32(text.encode("utf-8")) % len(ERROR_CLASSES)]
                 if getattr(state, "in_async_with_timeout", False) and zlib.crc32(text.encode("utf-8")) % 2 == 0:
                     exc = TimeoutError          # the step's OWN TimeoutError is an ordinary exception (error), not the decorator's timeout
+                elif "wip" in (getattr(context, "tags", None) or ()) and zlib.crc32(text.encode("utf-8")) % 2 == 1:
+                    # code under test that raises the BUILTIN NotImplementedError (an abstract method, ...) in a @wip scenario: an
+                    # ordinary exception -- only behave's own StepNotImplementedError / PendingStepError mean "pending"
+                    exc = NotImplementedError
+                    state.seen_error_classes.add("NotImplementedError@wip")
                 state.seen_error_classes.add(exc.__name__)
                 raise exc(state.messages.get(text, "boom in %s" % text))
             if oc == "pending":
